@@ -608,7 +608,8 @@ fn other_one<B: FA, H: ElementHasher<BaseField = B> + Send + Sync>(c: &OtherCase
                 if m.len() >= TraceInfo::MAX_META_LENGTH {
                     m[0] ^= 1;
                 } else {
-                    m.push(c.sel as u8);
+                    // every fourth time a zero byte: metadata that differs by trailing zero bytes only
+                    m.push(if c.sel2 % 4 == 0 { 0 } else { c.sel as u8 });
                 }
                 (TraceInfo::new_multi_segment(ti.main_trace_width(), ti.aux_segment_width(), ti.get_num_aux_segment_rand_elements(), ti.length(), m), o, "meta-extended")
             },
